@@ -385,7 +385,9 @@ int utmpname(const char *f) { if (!sim_active()) return REAL(utmpname)(f); SimSc
 int getutline_r(const struct utmp *line, struct utmp *buf, struct utmp **res) {
     if (!sim_active()) return REAL(getutline_r)(line, buf, res);
     SimScope s; sim_step();
+    Fault f; bool faulted = sim_fault("getutline_r", f);
     Ev &e = sim_event("getutline_r", std::string(line->ut_line, strnlen(line->ut_line, UT_LINESIZE)));
+    if (faulted && f.err) { *res = nullptr; errno = f.err; e.ret = -1; e.err = f.err; e.mark |= MARK_FAULT; return -1; }   // the utmp file cannot be opened or read
     for (; t_ut_cursor < G.w.utmp.size(); t_ut_cursor++) {
         const UtmpEnt &u = G.w.utmp[t_ut_cursor];
         if (strncmp(u.line.c_str(), line->ut_line, UT_LINESIZE) == 0) {
@@ -481,7 +483,9 @@ int usleep(useconds_t n) { if (!sim_active()) return REAL(usleep)(n); blocks("us
 int nanosleep(const struct timespec *a, struct timespec *b) { if (!sim_active()) return (int)rawret(RAW(SYS_nanosleep, (long)a, (long)b, 0, 0, 0, 0)); blocks("nanosleep"); return 0; }
 int poll(struct pollfd *f, nfds_t n, int to) { if (!sim_active()) return (int)rawret(RAW(SYS_poll, (long)f, (long)n, to, 0, 0, 0)); if (to != 0) blocks("poll"); return 0; }
 int select(int n, fd_set *r, fd_set *w, fd_set *x, struct timeval *tv) { if (!sim_active()) return (int)rawret(RAW(SYS_select, n, (long)r, (long)w, (long)x, (long)tv, 0)); if (!tv || tv->tv_sec || tv->tv_usec) blocks("select"); return 0; }
-int flock(int fd, int op) { if (!sim_active()) return (int)rawret(RAW(SYS_flock, fd, op, 0, 0, 0, 0)); if (!(op & 4)) blocks("flock"); return 0; }
+int fileno(FILE *f) { if (sim_active()) { int fd = k_fileno(f); if (fd >= 0) return fd; } return REAL(fileno)(f); }
+int fileno_unlocked(FILE *f) { if (sim_active()) { int fd = k_fileno(f); if (fd >= 0) return fd; } return REAL(fileno_unlocked)(f); }
+int flock(int fd, int op) { if (!sim_active()) return (int)rawret(RAW(SYS_flock, fd, op, 0, 0, 0, 0)); if (!simfd(fd)) { if (!(op & 4)) blocks("flock"); return 0; } SimScope s; int r = k_flock(fd, op); if (r < 0) { errno = -r; return -1; } return 0; }
 int lockf(int fd, int cmd, off_t len) { if (!sim_active()) return REAL(lockf)(fd, cmd, len); if (cmd == 1) blocks("lockf"); return 0; }
 void openlog(const char *id, int opt, int fac) { if (!sim_active()) { REAL(openlog)(id, opt, fac); return; } SimScope s; sim_step(); sim_event("openlog", id ? id : ""); }
 void closelog(void) { if (!sim_active()) { REAL(closelog)(); return; } SimScope s; sim_step(); sim_event("closelog"); }
